@@ -954,10 +954,13 @@ class EffectDomain(DefaultDomain):
             ci = self.classes.resolve_expr(mod, expr) if mod is not None else None
             owner, f = self.classes.resolve_method(ci, "__init__") if ci is not None else (None, None)
         except Exception:
-            return pos, kw
+            ci, f = None, None
+        skip = 1
+        if not isinstance(f, FUNC_TYPES) and isinstance(expr, ast.Name) and mod is not None and hasattr(self.classes, "lookup_function"):
+            f, skip = self.classes.lookup_function(mod, expr.id), 0   # a function of the repository standing in as a constructor of a symbolic value
         if not isinstance(f, FUNC_TYPES) or f.args.vararg is not None or f.args.posonlyargs:
             return pos, kw
-        names = [a.arg for a in f.args.args[1:]]
+        names = [a.arg for a in f.args.args[skip:]]
         given = dict(kw)
         out = list(pos)
         for n_ in names[len(pos):]:
